@@ -1,6 +1,7 @@
 (* Props/C09.v *)
 From Coq Require Import List NArith Arith Bool Lia.
 From SKV Require Import Base.Lex Txn.WriteSet Spec.Store Spec.Cursor Spec.Machine.
+From SKV Require Import Txn.RangeIter Txn.RangeIterSpec Txn.RangeIter_proofs.
 Import ListNotations.
 
 (* the specification cursor never leaves the list: a position it reports always holds an entry *)
@@ -28,3 +29,80 @@ Proof.
     + destruct fresh; [|discriminate]. destruct items as [|x r]; [discriminate|]. intros E; injection E as <-. cbn [length]. lia.
   - intros H. apply seek_idx_bound in H. lia.
 Qed.
+
+(* ------------------------------------------------------------------ *)
+(* the overlay layer: TransactionRangeIterator (Txn/RangeIter.v) over an ideal snapshot cursor *)
+
+(* for all committed lists and write-set lists (ascending distinct keys, any sizes) and every
+   program in which only seeks follow an unpositioned answer, after every operation the
+   overlay's valid/key/value are those of the specification cursor over the merged live list *)
+Theorem C09_overlay_refines : overlay_refines_stmt.
+Proof. exact overlay_refines. Qed.
+
+(* the same for every program, admissible or not *)
+Theorem C09_overlay_refines_total : overlay_refines_total_stmt.
+Proof. exact overlay_refines_total. Qed.
+
+(* all observations of a run (what `ri run` prints on the model side), without and with bounds;
+   with bounds the list is the live pairs of the view inside [lo, hi) *)
+Theorem C09_overlay_run : overlay_run_stmt.
+Proof. exact overlay_run. Qed.
+Theorem C09_overlay_run_bounded : overlay_run_bounded_stmt.
+Proof. exact overlay_run_bounded. Qed.
+
+(* the merged live list is sorted and holds exactly: the values written in the transaction, and
+   the committed pairs of keys the transaction did not touch (deleted keys are absent) *)
+Theorem C09_merged_live_char : merged_live_char_stmt.
+Proof. exact merged_live_char. Qed.
+
+(* the fuel of the positioning loops is never exhausted *)
+Theorem C09_position_fuel : position_fuel_stmt.
+Proof. exact position_fuel. Qed.
+
+(* the executable check used for the small-domain validation decides the refinement statement *)
+Theorem C09_refines_check_decides : refines_fromb_iff_stmt.
+Proof. exact refines_fromb_iff. Qed.
+
+(* the hypotheses are satisfiable, and the statement is not vacuous: the two reversal cases on
+   which the code before its repair went wrong (DESIGN.md, C09) *)
+Local Open Scope N_scope.
+Example C09_sorted_example : keys_sorted (map fst [([1], [10]); ([3], [30]); ([3; 0], [31])]).
+Proof. repeat constructor. Qed.
+
+(* empty snapshot, write set {3, 5}: seek_last; next runs off the end *)
+Example C09_reversal_at_exhausted_side :
+  ri_run [] [([3], Some [31]); ([5], Some [51])] ri_init [CLast; CNext] = [Some ([5], [51]); None].
+Proof. reflexivity. Qed.
+
+(* snapshot {b}, write set {a, c}: seek_last, prev, prev, next yields b *)
+Example C09_reversal_p08 :
+  ri_run [([98], [0])] [([97], Some [1]); ([99], Some [1])] ri_init [CLast; CPrev; CPrev; CNext]
+  = [Some ([99], [1]); Some ([98], [0]); Some ([97], [1]); Some ([98], [0])].
+Proof. reflexivity. Qed.
+
+(* a tombstone hides the committed pair in both directions and across a reversal *)
+Example C09_tombstone_example :
+  ri_run [([1], [10]); ([3], [30]); ([5], [50])] [([3], None); ([5], Some [51])] ri_init
+         [CFirst; CNext; CPrev; CSeek [2]; CPrev; CPrev]
+  = [Some ([1], [10]); Some ([5], [51]); Some ([1], [10]); Some ([5], [51]); Some ([1], [10]); None].
+Proof. reflexivity. Qed.
+
+(* the statement evaluated exhaustively on a small domain (every committed subset of {1,3,5},
+   every write set over {1,3,5} with values / tombstones, every program of length <= 3 over
+   first, last, next, prev, seek 0/3/4/6) -- the validation that preceded the proof *)
+Fixpoint c09_sublists {A} (l : list A) : list (list A) :=
+  match l with [] => [[]] | x :: r => let s := c09_sublists r in s ++ map (cons x) s end.
+Fixpoint c09_wsets (ks : list N) : list (list (bytes * option bytes)) :=
+  match ks with
+  | [] => [[]]
+  | k :: r => let s := c09_wsets r in s ++ map (cons ([k], Some [k; 1])) s ++ map (cons ([k], None)) s
+  end.
+Definition c09_ops : list cop := [CFirst; CLast; CNext; CPrev; CSeek [0]; CSeek [3]; CSeek [4]; CSeek [6]].
+Fixpoint c09_progs (n : nat) : list (list cop) :=
+  match n with O => [[]] | S m => flat_map (fun p => map (fun o => o :: p) c09_ops) (c09_progs m) end.
+Definition c09_small_domain_ok : bool :=
+  forallb (fun sn => forallb (fun ws => forallb (fun p => refines_fromb sn ws ri_init true None p) (c09_progs 3))
+                             (c09_wsets [1; 3; 5]))
+          (c09_sublists [([1], [1; 0]); ([3], [3; 0]); ([5], [5; 0])]).
+Example C09_small_domain : c09_small_domain_ok = true.
+Proof. vm_compute. reflexivity. Qed.
